@@ -644,7 +644,8 @@ class SAMIParser(HTMLParser):
         self.line = ''
         self.styles = {}
         self.queue = deque()
-        self.langs = set()
+        # insertion-ordered (a set would make the language order depend on the hash seed)
+        self.langs = {}
         self.last_element = ''
         self.name2codepoint = name2codepoint.copy()
         self.name2codepoint['apos'] = 0x0027
@@ -669,7 +670,7 @@ class SAMIParser(HTMLParser):
             # if no language detected, set it as the default
             lang = lang or DEFAULT_LANGUAGE_CODE
             attrs.append(('lang', lang))
-            self.langs.add(lang)
+            self.langs[lang] = None
 
         # clean-up line breaks
         if tag == 'br':
